@@ -17,7 +17,7 @@ from ..fakeserial import EBB3Board, FakePort, LegacyBoard, PortInfo, Profile
 
 PROPERTY = "C15"
 MIN = (3, 0, 2)
-COMPONENTS = [0, 1, 2, 9, 10, 11, 99, 100]
+COMPONENTS = [0, 1, 2, 9, 10, 11, 99, 100, 123456]
 PREFIX = "EBBv13_and_above EB Firmware Version "
 
 # banner alphabet for the version probe; option 0 is the conforming minimum-version board
@@ -309,7 +309,7 @@ def run(ctx):
         "traces_validated_against_impl": execs + cnt.get("gate_cases", 0),
         "evaluations": execs + cnt.get("order_pairs", 0) + cnt.get("gate_cases", 0),
         "distinct_nontrivial": cnt.get("faulted_executions", 0) + cnt.get("nontrivial_order", 0),
-        "rule": "(a) 512 x 512 version/threshold pairs over components {0,1,2,9,10,11,99,100}, "
+        "rule": "(a) 729 x 729 version/threshold pairs over components {0,1,2,9,10,11,99,100,123456}, "
                 "both layers; (b) connect() histories (connect+6 requests; connect,connect; "
                 "connect,disconnect,connect) x given_name {None, matching, missing} x every "
                 f"environment vector with <= {bound} deviations (open failure, 9 banner kinds per "
